@@ -495,6 +495,133 @@ def render_value(term: dict, m: int, seed: int) -> dict:
 
 
 # --------------------------------------------------------------------------------------------
+# C23 (c): parse-only literal inputs (integer literal tokens stated by MC_Literals)
+# --------------------------------------------------------------------------------------------
+
+_DIGITS = "0123456789abcdef_"          # token 16 = underscore (LiteralsOps!US)
+_PREFIX = {10: "", 16: "0x", 2: "0b", 8: "0o"}
+_BASE_NAME = {10: "dec", 16: "hex", 2: "bin", 8: "oct"}
+X_NONE = {"k": "-", "sg": 2, "hx": [], "es": []}
+
+
+def tok_text(tok: dict) -> str:
+    """Integer literal token [sg, base, ds, up] -> its source text (nothing is computed here)."""
+    body = _PREFIX[tok["base"]] + "".join(_DIGITS[d] for d in tok["ds"])
+    return tok["sg"] + (body.upper() if tok["up"] else body)
+
+
+def lit_code(t: dict) -> str:
+    """Literal expression term of LiteralsOps (LN) -> source text."""
+    k, es = t["k"], t["es"]
+    if k == "Int":
+        return tok_text(t["tok"])
+    if k == "Complex":
+        return f"complex({lit_code(es[0])}, {lit_code(es[1])})"
+    if k == "List":
+        return "[" + ", ".join(lit_code(e) for e in es) + "]"
+    if k == "Tuple":
+        return "(" + ", ".join(lit_code(e) for e in es) + ("," if len(es) == 1 else "") + ")"
+    if k == "Set":
+        return "{" + ", ".join(lit_code(e) for e in es) + "}"
+    if k == "Dict":
+        return "{" + ", ".join(f"{lit_code(e['es'][0])}: {lit_code(e['es'][1])}" for e in es) + "}"
+    raise ValueError(f"unknown literal term {k}")
+
+
+def _limbs(v: int) -> list[int]:
+    return [int(ch, 16) for ch in format(abs(v), "x")] if v else []
+
+
+def xdesc(v) -> dict:
+    """Exact descriptor [k, sg, hx, es] of LiteralsOps: ints as sign + base-16 limbs, integral floats like
+    the int they equal (-0.0: sg -1 without limbs), everything else sg 2."""
+    t = type(v)
+    if t is int:
+        return {"k": "int", "sg": (v > 0) - (v < 0), "hx": _limbs(v), "es": []}
+    if t is float:
+        if math.isfinite(v) and v == int(v):
+            sg = -1 if math.copysign(1.0, v) < 0 else (1 if v > 0 else 0)
+            return {"k": "float", "sg": sg, "hx": _limbs(int(v)), "es": []}
+        return {"k": "float", "sg": 2, "hx": [], "es": []}
+    if t is complex:
+        return {"k": "complex", "sg": 0, "hx": [], "es": [xdesc(v.real), xdesc(v.imag)]}
+    if t in (list, tuple):
+        return {"k": t.__name__, "sg": 0, "hx": [], "es": [xdesc(e) for e in v]}
+    if t in (set, frozenset):
+        return {"k": t.__name__, "sg": 0, "hx": [], "es": sorted((xdesc(e) for e in v), key=_key)}
+    if t is dict:
+        return {"k": "dict", "sg": 0, "hx": [],
+                "es": sorted(({"k": "pair", "sg": 0, "hx": [], "es": [xdesc(a), xdesc(b)]} for a, b in v.items()), key=_key)}
+    return {"k": t.__name__, "sg": 2, "hx": [], "es": []}
+
+
+def lit_label(case: dict) -> str:
+    n = case["name"]
+    sign = {"": "pos", "-": "neg", "+": "plus"}[n["sg"]]
+    return (f"{case['ctx']}/{sign}-{_BASE_NAME[n['base']]}/{n['pat']}/us-{n['us']}" + ("/upper" if n["up"] else "")
+            + (f"#{case['m']}" if case["m"] else ""))
+
+
+def parse_input(case: dict):
+    """A literal Pynguin did not render (as found in a seeded / parsed test case), given as source text:
+    parse_literal, get_literal_value on a statement `var_0 = <text>`, and the local-search write-back
+    set_literal_value(<parsed value>) followed by another read.  Returns (event, expression or None)."""
+    from pynguin.testcase import literalgen as lg  # noqa: PLC0415
+    from pynguin.testcase import localsearchstatement as ls  # noqa: PLC0415
+    import pynguin.testcase.testcase as tc  # noqa: PLC0415
+    raw = PY_TYPE[case["req"]]
+    code = lit_code(case["lit"])
+    ev = {"op": "parse", "lit": case["lit"], "req": case["req"], "ctx": case["ctx"], "label": lit_label(case),
+          "m": case["m"], "code": code[:200], "code_len": len(code), "compiles": False, "evalok": False, "xv": X_NONE,
+          "p_raised": "", "p_some": False, "pv": X_NONE, "g_raised": "", "g_some": False, "gv": X_NONE,
+          "w_raised": "", "w_wrote": False, "w_code": "", "w_evalok": False, "w_xv": X_NONE, "w_some": False,
+          "wv": X_NONE}
+    try:
+        compile(code, "<literal>", "eval")
+        expr = cst.parse_expression(code)
+        ev["compiles"] = True
+    except BaseException:  # noqa: BLE001
+        return ev, None
+    try:
+        ev["xv"] = xdesc(_eval(code))
+        ev["evalok"] = True
+    except BaseException:  # noqa: BLE001
+        pass
+    try:
+        p = lg.parse_literal(expr, raw)
+        if p is not None:
+            ev["p_some"], ev["pv"] = True, xdesc(p)
+    except BaseException as ex:  # noqa: BLE001
+        ev["p_raised"] = type(ex).__name__
+    t = tc.TestCase()
+    t.add_statement(tc.Statement(node=cst.parse_statement(f"var_0 = {code}"), bound_variable="var_0", bound_type=raw))
+    g = None
+    try:
+        g = ls.get_literal_value(t.get_statement(0), raw)
+        if g is not None:
+            ev["g_some"], ev["gv"] = True, xdesc(g)
+    except BaseException as ex:  # noqa: BLE001
+        ev["g_raised"] = type(ex).__name__
+    if g is not None:
+        try:
+            ev["w_wrote"] = bool(ls.set_literal_value(t, 0, g))
+            stmt = t.get_statement(0)
+            wcode = code_of(stmt.node.body[0].value)
+            ev["w_code"] = wcode[:200]
+            try:
+                ev["w_xv"] = xdesc(_eval(wcode))
+                ev["w_evalok"] = True
+            except BaseException:  # noqa: BLE001
+                pass
+            w = ls.get_literal_value(stmt, raw)
+            if w is not None:
+                ev["w_some"], ev["wv"] = True, xdesc(w)
+        except BaseException as ex:  # noqa: BLE001
+            ev["w_raised"] = type(ex).__name__
+    return ev, expr
+
+
+# --------------------------------------------------------------------------------------------
 # C23 (b): generate_literal / mutate_literal under configuration flag combinations
 # --------------------------------------------------------------------------------------------
 
@@ -606,7 +733,14 @@ def draw(case: dict, seed: int, chain: int = 3) -> dict:
     prov = LoggingProvider(SEED_POOL if flags["seeding"] == "always" else [])
     pool = tuple(cst.Name(v) for v in POOL_VARS) if flags["pool"] == "refs" else ()
     events = []
-    ev = {"op": "gen", "req": req, "flags": flags, "i": i, "start": NONE_NODE, "seeded": False,
+    start = case["start"] if case.get("start") and case["start"]["k"] != "-" else NONE_NODE
+    origin = lit_label(case) if case["op"] == "parse" else ""
+    if case["op"] == "parse":
+        # the chain starts from a literal given as source text (parse-only input)
+        pe, n = parse_input(case)
+        events.append(dict(pe, i=i))
+        return {"ev": events + _mutations(n, raw, prov, pool, req, flags, i, start, origin, chain)}
+    ev = {"op": "gen", "req": req, "flags": flags, "i": i, "start": NONE_NODE, "origin": "", "seeded": False,
           "seedv": NONE_NODE, **_blank()}
     n = None
     try:
@@ -625,11 +759,18 @@ def draw(case: dict, seed: int, chain: int = 3) -> dict:
             ev["seeded"] = True
             ev["seedv"] = desc(prov.log[0][1])
     events.append(ev)
+    return {"ev": events + _mutations(n, raw, prov, pool, req, flags, i, start, origin, chain)}
+
+
+def _mutations(n, raw, prov, pool, req, flags, i, start, origin, chain) -> list[dict]:
+    """A chain of mutate_literal calls starting from expression n (start / origin: where n came from)."""
+    from pynguin.testcase import literalgen as lg  # noqa: PLC0415
+    events = []
     for _ in range(chain):
         if n is None:
             break
         prov.log.clear()
-        mv = {"op": "mut", "req": req, "flags": flags, "i": i, "start": NONE_NODE, "seeded": False,
+        mv = {"op": "mut", "req": req, "flags": flags, "i": i, "start": start, "origin": origin, "seeded": False,
               "seedv": NONE_NODE, **_blank()}
         try:
             n2 = lg.mutate_literal(n, raw, prov, pool)
@@ -640,7 +781,7 @@ def draw(case: dict, seed: int, chain: int = 3) -> dict:
         _observe_expr(mv, n2, raw)
         events.append(mv)
         n = n2
-    return {"ev": events}
+    return events
 
 
 def hash_seed(seed: int, case: dict) -> int:
